@@ -289,18 +289,18 @@ async def _assert_preconditions_async(
     preconditions: List[List[Contract]], resolved_kwargs: Mapping[str, Any]
 ) -> Optional[BaseException]:
     """Assert that the preconditions of an async function hold."""
-    exception = None  # type: Optional[BaseException]
-
     # Assert the preconditions in groups. This is necessary to implement "require else" logic when a class
     # weakens the preconditions of its base class.
 
+    violated_contract = None  # type: Optional[Contract]
+
     for group in preconditions:
-        exception = None
+        violated_contract = None
 
         for contract in group:
             assert (
-                exception is None
-            ), "No exception as long as pre-condition group is satisfiable."
+                violated_contract is None
+            ), "No violated contract as long as pre-condition group is satisfiable."
 
             condition_kwargs = select_condition_kwargs(
                 contract=contract, resolved_kwargs=resolved_kwargs
@@ -316,16 +316,20 @@ async def _assert_preconditions_async(
                     check = check_or_coroutine
 
             if not_check(check=check, contract=contract):
-                exception = _create_violation_error(
-                    contract=contract, resolved_kwargs=resolved_kwargs
-                )
+                violated_contract = contract
                 break
 
         # The group of preconditions was satisfied, no need to check the other groups.
-        if exception is None:
+        if violated_contract is None:
             break
 
-    return exception
+    # Create the error only for the last group which was tried; the preceding groups were weakened.
+    if violated_contract is not None:
+        return _create_violation_error(
+            contract=violated_contract, resolved_kwargs=resolved_kwargs
+        )
+
+    return None
 
 
 def _assert_preconditions(
@@ -334,18 +338,18 @@ def _assert_preconditions(
     func: CallableT,
 ) -> Optional[BaseException]:
     """Assert that the preconditions of a sync function hold."""
-    exception = None  # type: Optional[BaseException]
-
     # Assert the preconditions in groups. This is necessary to implement "require else" logic when a class
     # weakens the preconditions of its base class.
 
+    violated_contract = None  # type: Optional[Contract]
+
     for group in preconditions:
-        exception = None
+        violated_contract = None
 
         for contract in group:
             assert (
-                exception is None
-            ), "No exception as long as pre-condition group is satisfiable."
+                violated_contract is None
+            ), "No violated contract as long as pre-condition group is satisfiable."
 
             condition_kwargs = select_condition_kwargs(
                 contract=contract, resolved_kwargs=resolved_kwargs
@@ -368,16 +372,20 @@ def _assert_preconditions(
                 )
 
             if not_check(check=check, contract=contract):
-                exception = _create_violation_error(
-                    contract=contract, resolved_kwargs=resolved_kwargs
-                )
+                violated_contract = contract
                 break
 
         # The group of preconditions was satisfied, no need to check the other groups.
-        if exception is None:
+        if violated_contract is None:
             break
 
-    return exception
+    # Create the error only for the last group which was tried; the preceding groups were weakened.
+    if violated_contract is not None:
+        return _create_violation_error(
+            contract=violated_contract, resolved_kwargs=resolved_kwargs
+        )
+
+    return None
 
 
 async def _capture_old_async(
